@@ -1309,6 +1309,13 @@ func funToString(v interface{}) (string, error) {
 
 func funToInt(v interface{}) (*decimal.Big, error) {
 	n := convToNumber(v)
+	if n.IsFinite() {
+		// truncate toward zero in decimal: int64 and float64 cannot hold every integer a
+		// number can denote (449999999999999e2 came back as 44999999999999904, 5e29 as 0)
+		result := newDecimalBig().Copy(n)
+		result.Context.RoundingMode = decimal.ToZero
+		return result.RoundToInt(), nil
+	}
 	iv, _ := n.Int64()
 	return newDecimalBig().SetFloat64(float64(iv)), nil
 }
